@@ -1,17 +1,16 @@
 (* C07 - mismatches are always describable; text_repr output evaluates back; assertThat /
-   assert_that / expectThat report faithfully (PARTIAL, see the two gaps below).
+   assert_that / expectThat report faithfully (PARTIAL: describability is sampled, see C07_holds).
    Only statements; every proof is `exact <lemma of Proof/C07*.v>`. *)
 From Coq Require Import String.
 From TT Require Import Lib.Base Model.TextRepr Model.Assertions Spec.C07 Corr.C07
      Proof.C07Repr Proof.C07Names Proof.C07.
 
-(* The model meets the whole statement.  Gap 1 (hypothesis [agree]): for a text_repr case the two
-   models of text_repr - the literal transliteration text_repr_lit and the per-character
-   text_repr_tok - must give the same output; this is computed by the model on every case of the
-   correspondence (the model's observation is OBad otherwise, which disagrees with any
-   implementation), it is not proved.  Hypothesis [finding_F21 i = false]: see C07_refuted_F21.  Gap 2: for IDesc the model's str()/describe()/get_details()
-   are total by construction; what is checked is the implementation, by sampling. *)
-Theorem C07_holds : forall i : input, wf i -> agree i = true -> finding_F21 i = false -> spec_okb i (model i) = true.
+(* The model meets the whole statement, for every input outside known finding F21 (C07_refuted_F21).  For a
+   text_repr case the model runs both formulations of text_repr - the literal transliteration text_repr_lit and
+   the per-character text_repr_tok - and observes OBad if they differ; they never do (C07_lit_eq_tok).
+   Remaining gap: for IDesc the model's str()/describe()/get_details() are total by construction; what is checked
+   is the implementation, by sampling. *)
+Theorem C07_holds : forall i : input, wf i -> finding_F21 i = false -> spec_okb i (model i) = true.
 Proof. exact model_meets_spec. Qed.
 Print Assumptions C07_holds.
 
@@ -32,15 +31,31 @@ Theorem C07_obs_eqb : forall a b, obs_eqb a b = true <-> alpha a = alpha b.
 Proof. exact obs_eqb_spec. Qed.
 Print Assumptions C07_obs_eqb.
 
-(* Full statement: eval_lit (text_repr_lit isb np s ml) = Some (isb, s).  Proved: the same for the
-   per-character model, for every str/bytes s, every multiline setting and every isprintable
-   predicate; and for repr itself, which is text_repr_lit whenever the multiline branch is not taken.
-   Missing: text_repr_lit = text_repr_tok on the multiline branch (str.replace never matches across
-   an escape boundary; the find/insert loop escapes the first k-2 quotes of every run of k >= 3). *)
-Theorem C07_text_repr_roundtrip_partial : forall isb nonprint s ml,
+(* text_repr's output evaluates back to the original text: every str / bytes s, every multiline setting
+   (None / True / False), every isprintable predicate; stated for the literal transliteration of compat.text_repr
+   (split, repr of every line, slice, str.replace, join, the find / insert loop on fuel) *)
+Theorem C07_text_repr_roundtrip : forall isb nonprint s ml,
+  Forall (valid isb) s -> eval_lit (text_repr_lit isb nonprint s ml) = Some (isb, s).
+Proof. exact lit_roundtrip. Qed.
+Print Assumptions C07_text_repr_roundtrip.
+
+(* the literal transliteration and the per-character formulation (a quote gets a backslash iff two more quotes
+   follow immediately) are the same function: str.replace never matches across an escape boundary; the
+   find / insert loop escapes the first k-2 quotes of every run of k >= 3 and stays within its fuel *)
+Theorem C07_lit_eq_tok : forall isb nonprint s ml,
+  text_repr_lit isb nonprint s ml = text_repr_tok isb nonprint s ml.
+Proof. exact lit_eq_tok. Qed.
+Print Assumptions C07_lit_eq_tok.
+
+Theorem C07_agree : forall i, agree i = true.
+Proof. exact agree_always. Qed.
+Print Assumptions C07_agree.
+
+(* the same round trip for the per-character formulation (formerly C07_text_repr_roundtrip_partial) *)
+Theorem C07_text_repr_tok_roundtrip : forall isb nonprint s ml,
   Forall (valid isb) s -> eval_lit (text_repr_tok isb nonprint s ml) = Some (isb, s).
 Proof. exact tok_roundtrip. Qed.
-Print Assumptions C07_text_repr_roundtrip_partial.
+Print Assumptions C07_text_repr_tok_roundtrip.
 
 Theorem C07_repr_roundtrip : forall isb nonprint s,
   Forall (valid isb) s -> eval_lit (repr isb nonprint s) = Some (isb, s).
